@@ -22,7 +22,7 @@ def family_rows(prefixes):
     out = []
     for kind, table in tables().items():
         for row in table.rows:
-            if row.kind == 'INSTR' and row.sem and row.sem.split(':')[0] in prefixes:
+            if row.kind == 'INSTR' and row.sem and (row.sem.split(':')[0] in prefixes or '=' + row.name in prefixes):
                 out.append((kind, row))
     return out
 
@@ -37,7 +37,7 @@ BOUNDARY_TARGETS = [0xFFFFFFFC, 0xFFFFFFFC, 0xFFFFFFFC, 0xFFFFFFF8, 0xFFFFFFF8, 
                     0x7FFE, 0x7FF8, 0x7FFF, 0x11FFC, 0x11FF8, 0x11FFE, 0xFFFFF000, 0xFFFC, 0xFFFFFFF4]
 
 
-def solve_address(ctx, rng, desc, kind, w, prep_args):
+def solve_address(ctx, rng, desc, kind, w, prep_args, targets=None):
     """move the first data access of the prepared instruction onto a boundary (last word of the address space, end of a
     RAM device, address 0): one reference step tells where the access goes; the base register - or, for PC-relative
     (literal) forms, the placement of the instruction itself - is shifted by the difference.  Returns the new desc."""
@@ -49,7 +49,7 @@ def solve_address(ctx, rng, desc, kind, w, prep_args):
     if verdict != 'ok' or not tr:
         return desc
     ops = info.get('ops') or {}
-    delta = (rng.choice(BOUNDARY_TARGETS) - tr[0][0]) & 0xFFFFFFFF
+    delta = (rng.choice(targets or BOUNDARY_TARGETS) - tr[0][0]) & 0xFFFFFFFF
     n = ops.get('n')
     try:
         n = int(n) if n is not None else None
@@ -81,7 +81,7 @@ def solve_address(ctx, rng, desc, kind, w, prep_args):
 
 
 def run_rows(pid, spec, prefixes, ctxs=CTXS_DEFAULT, regs_fn=None, prep_kw=None, after=None, keyfn=None, itpos_fn=None,
-             solve_addr=0.0, fixed_fn=None, product_cap=None, pin_sp=False):
+             solve_addr=0.0, fixed_fn=None, product_cap=None, pin_sp=False, host_only=False, solve_targets=None):
     from vf import lockstep, scen, machine as M
     from vf.ref.step import tables
     rng = rng_for(pid, 'rows', spec['seed'], spec['shard'])
@@ -154,6 +154,14 @@ def run_rows(pid, spec, prefixes, ctxs=CTXS_DEFAULT, regs_fn=None, prep_kw=None,
                 yield kind, row, w
 
     for kind, row, w in words():
+        if host_only and rng.random() < 0.85:
+            # most words drawn from a row with register constraints (Rt even, Rn != Rt ...) are UNPREDICTABLE and end at the
+            # decoder; the budget goes to the ones that execute
+            from vf.ref import spec as S_
+            rk_ = tabs[kind].decode(w, S_.Ctx(C=0, in_it=False, last_it=False, arch=7, iset='arm' if kind == 'arm' else 'thumb'))[0]
+            if rk_ == 'UNPREDICTABLE':
+                ls.bump('row_words_unpredictable_skipped')
+                continue
         ctxkey = ctxs[rng.randrange(len(ctxs))]
         ctx = ls.ctx(ctxkey)
         ns = rng.randrange(2) if ctx.cfg['have_security_ext'] else 0
@@ -179,7 +187,7 @@ def run_rows(pid, spec, prefixes, ctxs=CTXS_DEFAULT, regs_fn=None, prep_kw=None,
         desc = scen.prepare(ctx, rng, kind, w, mode=mode, itpos=itpos, ns=ns, regs=regs, **kw)
         if solve_addr and rng.random() < solve_addr:
             kw2 = dict(kw, mode=mode, itpos=itpos, ns=ns)
-            desc = solve_address(ctx, rng, desc, kind, w, kw2)
+            desc = solve_address(ctx, rng, desc, kind, w, kw2, targets=solve_targets)
             ls.bump('addresses_solved_' + desc.get('address_solved', 'not'))
         if rng.random() < (0.6 if (row.sem or '').split(':')[0] in SYSTEM_SEMS else 0.3):
             control_noise(ctx, rng, desc)
@@ -201,6 +209,18 @@ def run_rows(pid, spec, prefixes, ctxs=CTXS_DEFAULT, regs_fn=None, prep_kw=None,
         desc['regs'] = ['%#x' % r_.get(n_) for n_ in range(15)]
         desc['cpsr'] = '%#010x' % r_.cpsr.value
         ls.res['sets']['contexts'].add('%s/%s/%s' % (ctxkey[0], mode, kind))
+        if host_only:
+            # C18: the same row-generated words, operands and solved addresses, judged for ONE thing - whether anything but an
+            # architectural outcome or the documented not-implemented error leaves emulate_cycle()
+            verdict, info, diffs, pre, post, ref = ls.run(ctx, desc, 'it-' + itpos)
+            ls.bump('row_steps_' + str(info.get('emu')))
+            if post != pre:
+                ls.res['nontrivial'].add('%s|%s|%s' % (row.name, itpos, ctx.cfgname))
+            if info.get('emu') == 'host':
+                sig = info.get('emu_sig') or ('?', '?', '?')
+                ls.report('%s|host-error|%s|%s|row:%s' % (pid, sig[0], sig[2], row.name),
+                          dict(desc, error='%s in %s:%s' % (sig[0], sig[1], sig[2]), reference_verdict=verdict), desc, pre=pre)
+            continue
         ls.judge(ctx, desc, 'it-' + itpos, keyfn=keyfn)
     ls.res['violations'] = list(ls.viol.values())
     return ls.res
